@@ -15,23 +15,24 @@ import (
 
 // connInfo is the harness's ground truth about one connection (for the oracles).
 type connInfo struct {
-	mcid        int // number in the modelled loop, -1 = served by another loop (oracle-only)
-	cid         int
-	c           gnet.Conn
-	opened      bool
-	closed      bool
-	closeErr    bool
-	consumed    int    // bytes consumed by the handler so far
-	accepted    []byte // bytes accepted by write operations, in effect order
-	udp         bool
-	localReq    bool // a local close was requested for it
-	traffic     int
-	badAfter    bool
-	unflushed   bool     // ReadFrom without a following Flush: outside the property's write operations
-	sender      *peer    // UDP: the sender of the datagram this identity stands for
-	asyncIssued [][]byte // payloads of asynchronous writes with callback, in issue order
-	asyncDone   int
-	untracked   bool // an asynchronous write without callback was issued: effect point unknown to the oracle
+	mcid          int // number in the modelled loop, -1 = served by another loop (oracle-only)
+	cid           int
+	c             gnet.Conn
+	opened        bool
+	closed        bool
+	closeErr      bool
+	closedInSweep bool   // OnClose ran after engine shutdown had been requested
+	consumed      int    // bytes consumed by the handler so far
+	accepted      []byte // bytes accepted by write operations, in effect order
+	udp           bool
+	localReq      bool // a local close was requested for it
+	traffic       int
+	badAfter      bool
+	unflushed     bool     // ReadFrom without a following Flush: outside the property's write operations
+	sender        *peer    // UDP: the sender of the datagram this identity stands for
+	asyncIssued   [][]byte // payloads of asynchronous writes with callback, in issue order
+	asyncDone     int
+	untracked     bool // an asynchronous write without callback was issued: effect point unknown to the oracle
 }
 
 type handler struct {
@@ -180,6 +181,7 @@ func (h *handler) OnClose(c gnet.Conn, err error) gnet.Action {
 	if h.rec.shutdown && ci.mcid >= 0 {
 		h.rec.add("op", tr.L("pick", tr.I(ci.mcid)))
 	}
+	ci.closedInSweep = h.rec.shutdown
 	h.rec.closing[ci.cid] = true
 	h.rec.mu.Unlock()
 	if !ci.opened {
